@@ -702,12 +702,16 @@ class PreferredSrcSRS(object):
     def preferred_src(self, target, available_src):
         if not available_src:
             raise ValueError("no available src SRS")
-        if target in available_src:
-            return target
+        # SRS can be equal while having different codes (EPSG:3857/900913),
+        # always return the SRS with the code from available_src
+        for avail in available_src:
+            if avail == target:
+                return avail
         if target in self.target_proj:
             for preferred in self.target_proj[target]:
-                if preferred in available_src:
-                    return preferred
+                for avail in available_src:
+                    if avail == preferred:
+                        return avail
 
         for avail in available_src:
             if avail.is_latlong == target.is_latlong:
